@@ -271,7 +271,6 @@ int handle_routing_response(const cJSON *json_rpc, const cJSON *response, const 
 					cJSON_Delete(result_response);
 				} else {
 					log_peer_err(request->requesting_peer, "Could not create %s response!\n", result_type);
-					cJSON_Delete(response_copy);
 				}
 			} else {
 				log_peer_err(p, "Could not copy response!\n");
